@@ -97,6 +97,11 @@ func (cfg *Config) certNeedsRenewal(leaf *x509.Certificate, ari acme.RenewalInfo
 
 	expiration := expiresAt(leaf)
 
+	// the cache options can be changed at any time (SetOptions)
+	cfg.certCache.optionsMu.RLock()
+	cacheOptions := cfg.certCache.options
+	cfg.certCache.optionsMu.RUnlock()
+
 	var logger *zap.Logger
 	if emitLogs {
 		logger = cfg.Logger.With(
@@ -104,7 +109,7 @@ func (cfg *Config) certNeedsRenewal(leaf *x509.Certificate, ari acme.RenewalInfo
 			zap.Time("expiration", expiration),
 			zap.String("ari_cert_id", ari.UniqueIdentifier),
 			zap.Timep("next_ari_update", ari.RetryAfter),
-			zap.Duration("renew_check_interval", cfg.certCache.options.RenewCheckInterval),
+			zap.Duration("renew_check_interval", cacheOptions.RenewCheckInterval),
 			zap.Time("window_start", ari.SuggestedWindow.Start),
 			zap.Time("window_end", ari.SuggestedWindow.End))
 	} else {
@@ -141,7 +146,7 @@ func (cfg *Config) certNeedsRenewal(leaf *x509.Certificate, ari acme.RenewalInfo
 			// time OR just before it if the next waking time would be after it; this
 			// cutoff can actually be before the start of the renewal window, but the spec
 			// author says that's OK: https://github.com/aarongable/draft-acme-ari/issues/71
-			cutoff := selectedTime.Add(-cfg.certCache.options.RenewCheckInterval)
+			cutoff := selectedTime.Add(-cacheOptions.RenewCheckInterval)
 			if time.Now().After(cutoff) {
 				logger.Info("certificate needs renewal based on ARI window",
 					zap.Time("selected_time", selectedTime),
@@ -178,7 +183,7 @@ func (cfg *Config) certNeedsRenewal(leaf *x509.Certificate, ari acme.RenewalInfo
 	// routine to check for renewals, to accommodate both exceptionally long and short
 	// cert lifetimes
 	if currentlyInRenewalWindow(leaf.NotBefore, expiration, 1.0/50.0) ||
-		time.Until(expiration) < cfg.certCache.options.RenewCheckInterval*5 {
+		time.Until(expiration) < cacheOptions.RenewCheckInterval*5 {
 		logger.Warn("certificate is in emergency renewal window; expiration imminent",
 			zap.Duration("remaining", time.Until(expiration)))
 		return true
